@@ -106,6 +106,9 @@ pub enum RequestCreationError {
     /// The client sent an `Expect` header that was not recognized by tiny-http.
     ExpectationFailed,
 
+    /// The `Content-Length` header is not a decimal number that `usize` can hold.
+    InvalidContentLength,
+
     /// Error while reading data from the socket during the creation of the `Request`.
     CreationIoError(IoError),
 }
@@ -152,10 +155,25 @@ where
         // header must be ignored (RFC2616 #4.4)
         None
     } else {
-        headers
+        match headers
             .iter()
             .find(|h: &&Header| h.field.equiv("Content-Length"))
-            .and_then(|h| FromStr::from_str(h.value.as_str()).ok())
+        {
+            None => None,
+            Some(h) => {
+                // Only a plain decimal number that fits in `usize` delimits a body.
+                // Anything else (sign, list, garbage, overflow) must be rejected:
+                // treating it as absent would let the body be parsed as a request.
+                let value = h.value.as_str();
+                if value.is_empty() || !value.bytes().all(|b| b.is_ascii_digit()) {
+                    return Err(RequestCreationError::InvalidContentLength);
+                }
+                match usize::from_str(value) {
+                    Ok(length) => Some(length),
+                    Err(_) => return Err(RequestCreationError::InvalidContentLength),
+                }
+            }
+        }
     };
 
     // true if the client sent a `Expect: 100-continue` header
